@@ -144,6 +144,53 @@ func c18(raw json.RawMessage, resp *drv.Response) error {
 			resp.Sample(map[string]any{"id": c.ID, "matches": real, "resolutions": seen})
 		}
 	}
+	// (b') resolution is a function of the identifier, not of what the process resolved before: every supported identifier once
+	// more, each a single time, in reverse and in an interleaved order (neighbours then differ in one parameter only)
+	if req.Shard == 0 {
+		var sup []gateIdCase
+		for _, c := range cases {
+			if c.Supported {
+				sup = append(sup, c)
+			}
+		}
+		orders := [][]int{{}, {}}
+		for i := range sup {
+			orders[0] = append(orders[0], len(sup)-1-i)
+		}
+		for i := 0; i < len(sup); i += 2 {
+			orders[1] = append(orders[1], i)
+		}
+		for i := 1; i < len(sup); i += 2 {
+			orders[1] = append(orders[1], i)
+		}
+		for oi, ord := range orders {
+			for _, ci := range ord {
+				c := sup[ci]
+				g, p := resolve(c.ID)
+				k := "panic"
+				if p == "" {
+					k = g.Id()
+				}
+				resp.Count(fmt.Sprintf("order%d/%s", oi, c.ID), false)
+				ok := k != "panic" && strings.HasPrefix(k, c.Gate)
+				if ok {
+					want, got := statedParams(c.ID), statedParams(k)
+					if len(want) > len(got) {
+						ok = false
+					}
+					for i := range want {
+						if ok && got[i] != want[i] {
+							ok = false
+						}
+					}
+				}
+				if !ok {
+					resp.Violate(fmt.Sprintf("c18/resolve/history-dependent gate=%s", c.Gate),
+						fmt.Sprintf("identifier %q resolved to %q after other identifiers had been resolved in the same process (order %d)", c.ID, k, oi), c)
+				}
+			}
+		}
+	}
 	// (c) hiding
 	if req.Shard == 0 {
 		inst := data.ByName("testdata")
